@@ -34,9 +34,9 @@ def gen_refmap_consts(ctx):
     return d, ''
 
 
-def listed_in_coqproject():
+def listed_in_coqproject(f='Refmap/RefmapModel.v'):
     try:
-        return 'Refmap/RefmapModel.v' in open(os.path.join(lib.COQ, '_CoqProject')).read()
+        return f in open(os.path.join(lib.COQ, '_CoqProject')).read().split()
     except OSError:
         return False
 
@@ -65,7 +65,7 @@ def rebuild_model(ctx):
     """constants moved: extraction output and driver are stale"""
     ex = os.path.join(lib.COQ, 'Extract', 'Extract_refmap.vo')
     if os.path.exists(ex): os.remove(ex)
-    if listed_in_coqproject():
+    if listed_in_coqproject('Extract/Extract_refmap.v'):
         ok, out = ctx.coq_make(['Extract/Extract_refmap.vo'])
     else:
         ok, out = direct_build(ctx, ['Generated/RefmapConsts.v', 'Refmap/RefmapModel.v', 'Extract/Extract_refmap.v'])
@@ -131,34 +131,42 @@ def refmap_part(ctx, consts, theorems_ok):
     order = sorted(range(len(seqs)), key=lambda i: -len(seqs[i].ops))   # longest first, spread over workers
     t0 = time.time()
 
-    def run_model_one(i):
-        try:
-            return ctx.run_model('refmap', [lines[i]])[0]
-        except lib.CheckError as e:
-            return 'MODELFAIL ' + str(e)[:200]
-
-    def run_impl_chunk(idx):
-        return U.run_capped(H, [lines[i] for i in idx])
-
-    chunks = [order[k::12] for k in range(12)]
-    with cf.ThreadPoolExecutor(max_workers=15) as ex:
-        # group the many short sequences per model process, the long ones alone
-        long_i = [i for i in order if len(seqs[i].ops) > 3000]
-        short_i = [i for i in order if len(seqs[i].ops) <= 3000]
-        sgroups = [short_i[k::10] for k in range(10)]
-        fut_long = {i: ex.submit(run_model_one, i) for i in long_i}
-        fut_short = [ex.submit(lambda g=g: ctx.run_model('refmap', [lines[i] for i in g]) if g else []) for g in sgroups]
-        fut_impl = [ex.submit(run_impl_chunk, c) for c in chunks]
-        mres = {}
-        for i, f in fut_long.items(): mres[i] = f.result()
-        for g, f in zip(sgroups, fut_short):
-            for i, r in zip(g, f.result()): mres[i] = r
-        ires = {}
-        for c, f in zip(chunks, fut_impl):
+    # ---- phase 1: the implementation. Its replies carry what the model takes as growth ORACLE (refusal flag, bucket count after
+    # every insert / resize); when, and to which size, the table grows is not part of the property and is not compared.
+    chunks = [order[k::14] for k in range(14)]
+    ires = {}
+    with cf.ThreadPoolExecutor(max_workers=14) as ex:
+        futs = [ex.submit(lambda c=c: U.run_capped(H, [lines[i] for i in c])) for c in chunks]
+        for c, f in zip(chunks, futs):
             for i, r in zip(c, f.result()): ires[i] = r
-    ctx.log('refmap: %d sequences, %d operations, model+impl in %.1fs' % (len(seqs), sum(len(s.ops) for s in seqs), time.time() - t0))
+
+    # ---- phase 2: the extracted model with the observed oracle
+    mlines = {}
+    for i, s in enumerate(seqs):
+        impl = ires[i]
+        if impl == 'SKIP' or impl.startswith('CRASH'): continue
+        irep = impl.split(' ')
+        if len(irep) != len(s.ops): continue
+        mlines[i] = U.model_line(s, irep)
+
+    def run_model_group(g):
+        try:
+            return ctx.run_model('refmap', [mlines[i] for i in g]) if g else []
+        except lib.CheckError as e:
+            return ['MODELFAIL ' + str(e)[:200]] * len(g)
+    midx = [i for i in order if i in mlines]
+    long_i = [[i] for i in midx if len(seqs[i].ops) > 3000]
+    short_i = [i for i in midx if len(seqs[i].ops) <= 3000]
+    groups = long_i + [short_i[k::10] for k in range(10)]
+    mres = {}
+    with cf.ThreadPoolExecutor(max_workers=15) as ex:
+        futs = [ex.submit(run_model_group, g) for g in groups]
+        for g, f in zip(groups, futs):
+            for i, r in zip(g, f.result()): mres[i] = r
+    ctx.log('refmap: %d sequences, %d operations, impl then model in %.1fs' % (len(seqs), sum(len(s.ops) for s in seqs), time.time() - t0))
 
     nops = 0
+    policy_note = layout_note = None
     for i, s in enumerate(seqs):
         ctx.count(lines[i], klass=s.klass, n=1)
         nops += len(s.ops)
@@ -178,22 +186,33 @@ def refmap_part(ctx, consts, theorems_ok):
                           'the reference map does not behave as a map: %s (operation %d `%s` of a %s sequence)' % (msg, k, s.ops[k], s.klass),
                           {'sequence': s.line(k + 1), 'failing_op_index': k, 'impl_replies_tail': ' '.join(irep[max(0, k - 5):k + 1])})
             continue
-        mrep = mres[i].split(' ')
         if mres[i].startswith('MODELFAIL'):
             ctx.violation('corr:refmap-model-run', 'the extracted model failed on a sequence: ' + mres[i], {'sequence': lines[i][:200000]}); continue
-        if mrep != irep:
-            k = next((j for j, (a, b) in enumerate(zip(mrep, irep)) if a != b), min(len(mrep), len(irep)))
-            tok = s.ops[k] if k < len(s.ops) else '?'
-            a, b = (mrep[k] if k < len(mrep) else '-'), (irep[k] if k < len(irep) else '-')
-            if tok == 'd' and not hash_same: continue          # layout under another hash function: not constrained
-            if 'NONE' in a:
-                what = 'model loop ran out of steps (probe or growth loop that the theorems prove terminating)'
-            else: what = 'model %s, implementation %s' % (a[:80], b[:80])
-            ctx.violation('corr:refmap:%s' % tok[0], 'model and implementation disagree at operation %d `%s` of a %s sequence: %s; '
-                          'the python dict oracle accepts the implementation, so this is a change of policy (growth / layout), not of the map semantics'
-                          % (k, tok, s.klass, what), {'sequence': s.line(k + 1), 'model': a, 'impl': b})
+        mrep = mres[i].split(' ')
+        for k, (tok, a, b) in enumerate(zip(s.ops, mrep, irep)):
+            same, diag = U.compare_reply(tok, a, b)
+            if diag == 'layout' and hash_same and layout_note is None:
+                layout_note = 'diagnostic only: table layout (slot numbers) differs from the model at operation %d of a %s sequence although the stored (key, reference) set is equal' % (k, s.klass)
+            if same: continue
+            if a.startswith('POLICY'):
+                cnt, mb = a.split('/')[1:3]
+                nb = b.lstrip('F').split('/')[2]
+                ctx.violation('refmap-policy:%s' % tok[0],
+                              'growth policy violates the side condition under which the map is proved correct: after operation %d `%s` of a %s sequence the implementation has %s buckets '
+                              'with %s keys stored before the operation (needs a power of two, more buckets than keys and one slot left empty after an insert, otherwise a probe for an absent key never ends)'
+                              % (k, tok, s.klass, nb, cnt), {'sequence': s.line(k + 1), 'model': a, 'impl': b})
+            elif 'NONE' in a:
+                ctx.violation('corr:refmap-model-loop', 'a model loop ran out of steps (the theorems exclude this) at operation %d `%s`' % (k, tok), {'sequence': s.line(k + 1), 'model_line': mlines[i][:100000]})
+            else:
+                ctx.violation('corr:refmap:%s' % tok[0], 'model and implementation disagree at operation %d `%s` of a %s sequence on a value the property speaks about (return value, count, stored set): model %s, implementation %s; '
+                              'the python dict oracle accepts the implementation' % (k, tok, s.klass, a[:80], b[:80]), {'sequence': s.line(k + 1), 'model': a, 'impl': b})
+            break
+        if policy_note is None:
+            policy_note = U.reference_policy_diff(s, irep, consts)
+    if policy_note: ctx.notes.append(policy_note)
+    if layout_note: ctx.notes.append(layout_note)
     ctx.cov['refmap_operations'] = nops
-    ctx.sample({'refmap_sequence': lines[0][:300], 'model': mres[0][:200], 'impl': ires[0][:200]})
+    ctx.sample({'refmap_sequence': lines[0][:300], 'model_line_with_oracle': mlines.get(0, '')[:300], 'model': mres.get(0, '')[:200], 'impl': ires[0][:200]})
     big = max(range(len(seqs)), key=lambda i: len(seqs[i].ops))
     ctx.sample({'largest_sequence_class': seqs[big].klass, 'operations': len(seqs[big].ops), 'final_replies': ires[big][-120:]})
 
@@ -224,8 +243,15 @@ def refmap_part(ctx, consts, theorems_ok):
     # ---- observation outside the property's quantifier (reported as a note): resize with an absurd count
     rc, r, err = H.run(['bigresize %d' % (1 << 56)], timeout=30)
     if r and r[0] == 'TIMEOUT':
-        ctx.notes.append('flatcc_refmap_resize(refmap, 2^56) does not return (buckets wraps to 0 in the growth loop); the model yields None there '
-                         'and the theorems require resize requests below 179 * 2^48. Outside the property (address sets up to 10^5 keys).')
+        ctx.notes.append('flatcc_refmap_resize(refmap, 2^56) does not return (buckets wraps to 0 in the growth loop); the reference policy model (Properties_C18p) yields None there and '
+                         'requires resize requests below 179 * 2^48; the map theorems do not depend on it. Outside the property (address sets up to 10^5 keys).')
+
+
+def check_module(ctx, mod=None):
+    """ctx.check_theorems for one Properties module; success is judged on this module alone (the counters are cumulative)"""
+    o0, d0 = ctx.obligations, ctx.discharged
+    ctx.check_theorems(prop_module=mod) if mod else ctx.check_theorems()
+    return ctx.obligations > o0 and (ctx.discharged - d0) == (ctx.obligations - o0)
 
 
 def run(ctx):
@@ -236,19 +262,37 @@ def run(ctx):
     if consts.get('_changed'):
         ctx.log('Generated/RefmapConsts.v changed: theorems re-checked, model re-extracted')
     if listed_in_coqproject():
-        ok = ctx.check_theorems()
+        ok = check_module(ctx)
     else:
         okb, blog = direct_build(ctx, AREA_FILES[:5])
-        ok = ctx.check_theorems() if okb else False
+        ok = check_module(ctx) if okb else False
         if not okb: ctx.broken = {'files': re.findall(r'File "([^"]+)", line (\d+)', blog), 'log_tail': blog[-3000:]}
     if not ok:
         ctx.broken_obligation('Properties_C18.vo', getattr(ctx, 'broken', {}))
+    # SEPARATE obligation: the growth policy of refmap.c as transcribed (above / grow / resize(2 * count)) satisfies the side condition
+    # of the map theorems. It is the only part that depends on the generated constants and on the exact policy; the map theorems hold
+    # for every growth oracle. A failure here is reported without failing input (the correspondence below still looks for one:
+    # refmap-policy / refmap-map:full / non-terminating probe).
+    if not listed_in_coqproject('Properties/Properties_C18p.v'):
+        # bin/setup has not seen the files yet: compile them directly (always: their .vo must match the current RefmapModel.vo)
+        for f in ('Refmap/RefmapPolicy.vo', 'Properties/Properties_C18p.vo'):
+            if os.path.exists(os.path.join(lib.COQ, f)): os.remove(os.path.join(lib.COQ, f))
+        okd, blog = direct_build(ctx, ['Refmap/RefmapPolicy.v', 'Properties/Properties_C18p.v'])
+        okp = check_module(ctx, 'Properties_C18p') if okd else False
+        if not okd: ctx.broken = {'files': re.findall(r'File "([^"]+)", line (\d+)', blog), 'log_tail': blog[-3000:]}
+    else:
+        okp = check_module(ctx, 'Properties_C18p')
+    if not okp:
+        ctx.broken_obligation('Properties_C18p.vo:reference-growth-policy', getattr(ctx, 'broken', {}))
     # clone half on the models (Refmap/CloneModel.v, CloneContent.v): well typed script, copy decodes / reads equal, verifier model accepts
-    if os.path.exists(os.path.join(lib.COQ, 'Properties', 'Properties_C18b.v')) and listed_in_coqproject():
-        okb = ctx.check_theorems(prop_module='Properties_C18b')
+    if os.path.exists(os.path.join(lib.COQ, 'Properties', 'Properties_C18b.v')) and listed_in_coqproject('Properties/Properties_C18b.v'):
+        okb = check_module(ctx, 'Properties_C18b')
         if not okb:
             ctx.broken_obligation('Properties_C18b.vo', getattr(ctx, 'broken', {}))
-    if consts.get('_changed') or not os.path.exists(os.path.join(lib.ROOT, 'build', 'modelrun_refmap')):
+    mr = os.path.join(lib.ROOT, 'build', 'modelrun_refmap')
+    src_m = [os.path.join(lib.ROOT, 'ocaml', 'refmap', f) for f in ('model.ml', 'driver.ml')]
+    stale = not os.path.exists(mr) or any(os.path.exists(f) and os.path.getmtime(f) > os.path.getmtime(mr) for f in src_m)
+    if consts.get('_changed') or stale:
         try:
             rebuild_model(ctx)
         except lib.CheckError as e:
@@ -259,13 +303,15 @@ def run(ctx):
         'translators/refmap_probe.c (T1: minimum buckets, load factor numerator evaluated through the C function, seed)',
         'native Int64 Murmur3 finalizer in ocaml/refmap/driver.ml for the 10^4..10^5 key sequences (compared with the extracted refmap_hash and the C on samples; the theorems hold for every hash function)',
         'harness/clone_diff.c dump functions (value dump and sharing dump of source and copy are produced by the same code)']
-    ctx.assumptions = ['64-bit size_t, little-endian host', 'calloc refuses requests above 2^52 items (RM_MAX_BUCKETS in the model)',
-                       'manual resize requests below 179 * 2^48 (beyond that the C growth loop does not terminate)',
+    ctx.assumptions = ['64-bit size_t, little-endian host',
+                       'the growth behaviour (refusal, bucket count after each insert / resize) is taken from the implementation as an oracle; the map theorems hold for every oracle, '
+                       'an oracle violating the side condition (power of two, more buckets than keys, one empty slot after an insert) is reported as refmap-policy',
+                       'reference policy theorem (Properties_C18p) only: calloc refuses requests above 2^52 items, manual resize requests below 179 * 2^48',
                        'source buffers of clone are verified buffers (acyclic), source addresses are not reused while the map lives']
     ctx.finish_args = dict(
         rule='refmap: one case = one operation sequence from init (classes: small_random over pools with null key / colliding / top-of-range hashes, '
              'growth_N for N in 0..10^5 around every load threshold with refusals and retries, collide_same/end/top with keys computed through the inverse hash, '
-             'refuse_boundary, stream); every reply, (count, buckets) and table dumps compared with the extracted model and with a python dict. '
+             'refuse_boundary, stream); return values, refusal reports, count and the stored (key, reference) set compared with the extracted model run under the observed growth oracle, and with a python dict; bucket counts, growth moments and slot layout are diagnostics (notes). '
              'clone: one case = (DAG program, operation, refmap on/off); verifier verdict, value dump and sharing dump compared. distinct = distinct request lines',
-        explanation='theorems of Properties_C18 re-checked against regenerated constants; extracted model = implementation on every operation; '
+        explanation='theorems of Properties_C18 (map, every growth oracle), C18p (reference growth policy, regenerated constants) and C18b (clone code model) re-checked; extracted model = implementation on every operation for what the property speaks about; '
                     'python dict oracle = the property statement for the map; clone: copy verifies, reads equal, shares exactly what the source shares when a map is active')
